@@ -845,6 +845,7 @@ def run(ctx):
     ctx.do(c10.r10_2)
     ctx.do(c10.r10_5)
     ctx.do(c10.r10_9)
+    ctx.do(c10.r10_8)  # the wait loops of the admission queue make progress
     ctx.trust("frozen: transport/cancel arms of command() that may stay silent = ConnectionResetError, CancelledError, KeyboardInterrupt")
     ctx.trust("frozen: logging calls (logger.*/self.log.*) are non-raising")
 
